@@ -37,20 +37,45 @@ TrRescale == /\ Ev.ev = "step" /\ Ev.op = "Rescale"
 TrRelin == /\ Ev.ev = "step" /\ Ev.op = "Relin"
            /\ Relin(Ev.a, Ev.o) /\ Obs(Ev.o)
            /\ Ev.m = reg[Ev.a].m /\ BNEq(Ev.s, reg[Ev.a].s)
+ScalarOK == /\ IsRes(Ev.cm)
+            /\ (Ev.kind = "neg1" => BNEq(BNAdd(Ev.cm, <<1>>), TBN))
+            /\ (Ev.kind = "half" => BNEq(BNAdd(Ev.cm, Ev.cm), BNAdd(TBN, <<1>>)))
 TrMulSc == /\ Ev.ev = "step" /\ Ev.op = "MulSc"
            /\ MulSc(Ev.a, Ev.kind, Ev.o, Ev.m) /\ Obs(Ev.o)
-           /\ IsRes(Ev.cm)
-           /\ (Ev.kind = "neg1" => BNEq(BNAdd(Ev.cm, <<1>>), TBN))
-           /\ (Ev.kind = "half" => BNEq(BNAdd(Ev.cm, Ev.cm), BNAdd(TBN, <<1>>)))
+           /\ ScalarOK
            /\ \A i \in 1..NObs : ModMul(reg[Ev.a].m[i], Ev.cm, Ev.m[i], Ev.kv[i])
            /\ BNEq(Ev.s, reg[Ev.a].s)
+TrAddSc == /\ Ev.ev = "step" /\ Ev.op = "AddSc"
+           /\ AddSc(Ev.a, Ev.kind, Ev.o, Ev.m) /\ Obs(Ev.o) /\ ScalarOK
+           /\ \A i \in 1..NObs : ModAdd(reg[Ev.a].m[i], Ev.cm, Ev.m[i])
+           /\ BNEq(Ev.s, reg[Ev.a].s)
+\* plaintext operands: the vector and the scale it was encoded at are inputs of the step
+PtOK == Len(Ev.v) = NObs /\ (\A i \in 1..NObs : IsRes(Ev.v[i])) /\ IsUnit(Ev.sv)
+TrMulPt == /\ Ev.ev = "step" /\ Ev.op = "MulPt"
+           /\ MulPt(Ev.a, Ev.kind, Ev.o, Ev.m, Ev.s) /\ Obs(Ev.o) /\ PtOK
+           /\ \A i \in 1..NObs : ModMul(reg[Ev.a].m[i], Ev.v[i], Ev.m[i], Ev.kv[i])
+           /\ ModMul(reg[Ev.a].s, Ev.sv, Ev.s, Ev.ks)
+TrAddPt == /\ Ev.ev = "step" /\ Ev.op = "AddPt"
+           /\ AddPt(Ev.a, Ev.kind, Ev.o, Ev.m, Ev.s) /\ Obs(Ev.o) /\ PtOK
+           /\ \A i \in 1..NObs : ModAdd(reg[Ev.a].m[i], Ev.v[i], Ev.m[i])
+           /\ (BNEq(Ev.sv, reg[Ev.a].s) => BNEq(Ev.s, reg[Ev.a].s))
+\* out <- out + a * b: the product residues are logged with their quotients; when the product's scale is the scale
+\* of out it is kept, otherwise the common scale is left open
+TrMTA == /\ Ev.ev = "step" /\ Ev.op = "MulRelinThenAdd"
+         /\ MulRelinThenAdd(Ev.a, Ev.b, Ev.o, Ev.m, Ev.s) /\ Obs(Ev.o)
+         /\ Len(Ev.pr) = NObs
+         /\ \A i \in 1..NObs : /\ ModMul(reg[Ev.a].m[i], reg[Ev.b].m[i], Ev.pr[i], Ev.kv[i])
+                                /\ ModAdd(reg[Ev.o].m[i], Ev.pr[i], Ev.m[i])
+         /\ BNEq(Ev.so, reg[Ev.o].s)
+         /\ ModMul(reg[Ev.a].s, reg[Ev.b].s, Ev.r, Ev.ks)
+         /\ (BNEq(Ev.r, reg[Ev.o].s) => BNEq(Ev.s, reg[Ev.o].s))
 \* rlwe.Scale modulo T called directly: Mul is the product, Div its inverse, the operands are left as they were
 TrScale == /\ Ev.ev = "scale" /\ ~Ev.err /\ ~Ev.panic /\ Ev.xkeep
            /\ ModMul(Ev.x, Ev.y, Ev.mul, Ev.kmul)
            /\ ModMul(Ev.div, Ev.y, BNNorm(Ev.x), Ev.kdiv)
            /\ UNCHANGED <<reg, hist>>
 TraceNext == /\ l <= Len(Trace) /\ l' = l + 1
-             /\ (TrNew \/ TrLoad \/ TrBin \/ TrRescale \/ TrRelin \/ TrMulSc \/ TrScale)
+             /\ (TrNew \/ TrLoad \/ TrBin \/ TrRescale \/ TrRelin \/ TrMulSc \/ TrAddSc \/ TrMulPt \/ TrAddPt \/ TrMTA \/ TrScale)
 TraceInit == Init /\ l = 1 /\ TLCSet(1, 1) /\ ConstsOK
 TraceSpec == TraceInit /\ [][TraceNext]_tvars
 Progress == TLCSet(1, IF TLCGet(1) > l THEN TLCGet(1) ELSE l)
